@@ -25,4 +25,4 @@ for id in "$@"; do
   if [ $code -eq 1 ]; then echo "CHECK $id $tier: CAUGHT — $(grep -m1 -A1 '^VIOLATION' <<<"$out" | tail -1 | sed 's/^ *//' | cut -c1-160)";
   else echo "CHECK $id $tier: not caught (exit $code)"; fi
 done
-rm -rf "$VD/.cache/selftest-replay"
+[ -n "${SEED_NOCLEAN:-}" ] || rm -rf "$VD/.cache/selftest-replay"
